@@ -350,7 +350,9 @@ func monC12(rep Rep, v *View) (writes int) {
 		if before == nil {
 			continue
 		}
-		if st.ObservedGeneration < before.Status.ObservedGeneration {
+		// (a stored value ahead of the object's own generation was not written by this controller for this object - a status
+		// copied over from another object, see OpStatusRestored - and cannot be kept by a write that reports the generation reconciled)
+		if st.ObservedGeneration < before.Status.ObservedGeneration && before.Status.ObservedGeneration <= before.Generation {
 			rep.Violate("status/observed-generation-regressed", "observedGeneration %d written over stored %d%s", st.ObservedGeneration, before.Status.ObservedGeneration, ctx(v))
 		}
 		if st.ObservedGeneration != v.Set.Generation {
